@@ -829,6 +829,12 @@ func runC20(a vh.Args, o *vh.Oracle, r *vh.Result) error {
 				return c20Content(a, r, &hc)
 			}
 			return c20Chop(a, r, &hc)
+		case "serve":
+			var sc c20ServeCase
+			if err := readJSON(a.Replay, &sc); err != nil {
+				return err
+			}
+			return c20Serve(a, o, r, &sc)
 		case "frame":
 			var fc c20FrameCase
 			if err := readJSON(a.Replay, &fc); err != nil {
@@ -908,6 +914,9 @@ func runC20(a vh.Args, o *vh.Oracle, r *vh.Result) error {
 		return err
 	}
 	if err := c20ObjectsAll(a, r, rng); err != nil {
+		return err
+	}
+	if err := c20ServeAll(a, o, r, rng); err != nil {
 		return err
 	}
 	c20Fixtures(a, r)
